@@ -505,7 +505,20 @@ pub fn execute(seed: u64, sc: &Scenario, stats: &mut Stats) -> Result<(), Violat
         stats.fault(f);
     }
     let tracker = AllocTracker::with_limit(sc.alloc_limit);
-    let pool = if sc.pool_threads > 0 { JxlThreadPool::rayon(Some(sc.pool_threads)) } else { JxlThreadPool::none() };
+    let pool = if sc.pool_threads > 0 {
+        // A panic inside a task handed to `rayon::spawn` aborts the process unless the pool has a
+        // panic handler; C02 ignores panics (C01 reports them, with no pool), so give the pool one.
+        let rp = rayon_core::ThreadPoolBuilder::new()
+            .num_threads(sc.pool_threads)
+            .panic_handler(|_| {
+                crate::harness::POOL_TASK_PANICS.fetch_add(1, std::sync::atomic::Ordering::Relaxed);
+            })
+            .build()
+            .expect("rayon pool");
+        JxlThreadPool::with_rayon_thread_pool(std::sync::Arc::new(rp))
+    } else {
+        JxlThreadPool::none()
+    };
     let builder = || JxlImage::builder().pool(pool.clone()).alloc_tracker(tracker.clone()).force_wide_buffers(sc.force_wide);
     let mut state;
     let mut outcomes: Vec<&'static str> = Vec::new();
